@@ -63,7 +63,7 @@ Proof.
     destruct (shutdown_part (cfg sc m) t m _) as [w' l'] eqn:Es. cbn [snd x_log s0 app] in Hin.
     unfold shutdown_part in Es.
     destruct (shut _) in Es; injection Es as _ <-; [|destruct Hin].
-    apply in_app_or in Hin. destruct Hin as [Hin|[Hin|[]]]; [|discriminate].
+    apply in_app_or in Hin. destruct Hin as [Hin|[Hin|Hin]]; [|discriminate|unfold rpanic in Hin; destruct (c_rsend _); [destruct Hin as [Hin|[]]; discriminate|destruct Hin]].
     unfold cancelled in Hin. apply in_app_or in Hin.
     destruct Hin as [Hin|Hin]; apply in_map_iff in Hin; destruct Hin as (j & Hj & _); discriminate.
 Qed.
